@@ -541,14 +541,15 @@ def run_item(ctx, item):
         # beat values must be exact in single precision and on the documented 1/256 grid
         # (beat values are read as rationals with a denominator up to 256: triplets and quintuplets are inside that grid)
         divs = rng.choice([1, 2, 4, 8, 16, 32, 3, 5, 6, 12, 24] if mode != "div" else [1, 2, 4, 8, 12, 16, 24, 480])
-        n = rng.randint(1, 25)
+        single = rng.random() < 0.12                # a table of one note
+        n = 1 if single else rng.randint(1, 25)
         onsets, t = [], 0
         rows = []
         for i in range(n):
             if rng.random() < 0.7:
                 t += rng.randint(0, 3 * divs)
             dur = rng.randint(1, 4 * divs)
-            for pitch in rng.sample(range(40, 90), rng.choice([1, 1, 2, 3])):
+            for pitch in rng.sample(range(40, 90), 1 if single else rng.choice([1, 1, 2, 3])):
                 rows.append((t, dur, pitch))
         rows.sort()
         fields, data = [], []
@@ -566,6 +567,11 @@ def run_item(ctx, item):
             rec += (pi, 1, f"m{i}")
             data.append(rec)
         na = np.array(data, dtype=fields)
+        # the columns a caller has: voice and id are optional (the library estimates voices and makes up ids)
+        drop = [c_ for c_ in ("voice", "id") if rng.random() < (0.6 if single else 0.25)]
+        if drop:
+            na = na[[nm for nm in na.dtype.names if nm not in drop]].copy()
+            ctx.extra["inverse_arrays_without_" + "_and_".join(drop)] += 1
         kwargs = {}
         if mode == "div":
             kwargs["divs"] = divs
